@@ -127,6 +127,14 @@ CHECKS.update({
             "DESIGN.md §4 C15"),
 })
 
+CHECKS.update({
+    "C09": ("fault_enumeration", "E4",
+            "systematic enumeration of deviations from valid input (truncation at every offset, every length/count/varint field at boundary values, type and flag nibbles, extreme option and JSON values, all byte strings of length <= 2 for the decoders) executed in journalled worker processes under a virtual-memory limit, with a canary client and an allocation bound",
+            "17 valid client sessions and every emitter/<x>/ request x the deviation menu (1 deviation quick, <= 2 thorough) against a real broker while a canary client must keep completing subscribe/publish round trips; the frame/message/state decoders, the swarm's OnGossip/OnGossipBroadcast/OnGossipUnicast and the survey handlers get all byte strings of length <= 2 plus seeds x deviations; the worker must not exit, hang (60 s, confirmed by 3 re-runs) or allocate more than 64 x input + 8 MiB; packets of exactly and one above the configured size are served / refused.",
+            "a deviation menu around valid seeds bounds, it does not prove, the absence of crashes; failure classes can flip under extreme machine load (still a failure).",
+            "DESIGN.md §4 C09"),
+})
+
 NOT_YET = {}
 
 
